@@ -128,11 +128,23 @@ def behaviour_c13(rng):
     if short["id"] and fmt == "pretty":
         fmt = "full"       # (pretty records contain newlines: the chunks of a short-writing sink could not be re-assembled)
     # front end: the fmt::subscriber() layer on a registry, or the fmt() collector builder (own option forwarding, own Collect impl)
-    return {"src": "random-c13", "format": fmt, "opts": opts, "opts_first": rng.random() < 0.4, "front": rng.choice(["layer", "layer", "builder"]),
+    front = rng.choice(["layer", "layer", "builder"])
+    steps = steps_c13(rng, 40, nth)
+    twin = front == "layer" and fmt != "pretty" and rng.random() < 0.3
+    if twin:
+        # (each fmt subscriber formats an event's fields itself: a field whose Debug impl emits an event would emit it once per
+        # subscriber - such fields are left out next to a twin)
+        for st in steps:
+            if st.get("nested"):
+                st["fields"] = [f for f in st["fields"] if f["val"]["t"] != "nest"]
+                del st["nested"]
+    return {"src": "random-c13", "format": fmt, "opts": opts, "opts_first": rng.random() < 0.4, "front": front,
+            # a second fmt subscriber with the same field formatter next to the recorded one (layer front end, not pretty)
+            "twin": twin,
             # the collector as the process's global default without any scoped default (the usual init() set-up), or scoped per thread
             "global": rng.random() < 0.4,
             "writer": {"shape": shape, "params": params, "failing": failing, "short": short, "locked": locked},
-            "steps": steps_c13(rng, 40, nth)}
+            "steps": steps}
 
 
 def reset_fields(b):
